@@ -567,6 +567,274 @@ func (e *emitter) c10Stores(s *source, rel, goName, leanName string) {
 	e.stringList(leanName, "stores to fields in `"+goName+"` ("+rel+")", out)
 }
 
+// ---------------------------------------------------------------- round 5: the ORDER OF EFFECTS as a typed list
+//
+// The cleanup paths of the pipeline (cancel, finish, the deferred functions of the generator / dispatcher / worker /
+// reducer goroutines and of the caller, the caller's panic and context cases) are straight-line sequences of channel
+// closes, drains, wait-group calls and panic hand-overs.  Their order is what the model's step tables encode (and what
+// the seeded changes C10-2 and C10-4 broke).  They are extracted as lists over the inductive type `Eff`; a statement
+// outside the vocabulary becomes `Eff.other "<source>"` and breaks the Tie.
+
+const c10EffDecl = `/-- one effect of a cleanup path (round 5: typed, in source order) -/
+inductive Eff
+  | retErrSet            -- retErr.Set(err) / retErr.Set(ErrCancelWithNil) (both branches of ` + "`if err != nil`" + `)
+  | drainSource | drainCollector | drainOutput
+  | finish               -- finish()
+  | closeDone | closeOutput | closeCollector | closeSource
+  | wgWait | wgDone | poolRelease
+  | recoverBegin | recoverEnd      -- if r := recover(); r != nil { … }
+  | failedInc | panicWrite         -- atomic.AddInt32(&failed, 1) / panicChan.write(r)
+  | rangeOutputPanic               -- for range output { panic("more than one element …") }
+  | repanic | panicV               -- panicChan.repanic() / panic(v)
+  | cancelDeadline | errDeadline   -- cancel(context.DeadlineExceeded) / err = context.DeadlineExceeded
+  | callUser (f : String)          -- the call of the user function
+  | other (src : String)
+  deriving DecidableEq, Repr
+
+`
+
+func c10EffOfCall(src string) string {
+	switch src {
+	case "drain(source)", "drain(mCtx.source)":
+		return ".drainSource"
+	case "drain(collector)":
+		return ".drainCollector"
+	case "drain(output)":
+		return ".drainOutput"
+	case "finish()":
+		return ".finish"
+	case "close(done)":
+		return ".closeDone"
+	case "close(output)":
+		return ".closeOutput"
+	case "close(mCtx.collector)":
+		return ".closeCollector"
+	case "close(source)":
+		return ".closeSource"
+	case "wg.Wait()":
+		return ".wgWait"
+	case "wg.Done()":
+		return ".wgDone"
+	case "atomic.AddInt32(&failed, 1)":
+		return ".failedInc"
+	case "panicChan.write(r)", "mCtx.panicChan.write(r)":
+		return ".panicWrite"
+	case "panicChan.repanic()":
+		return ".repanic"
+	case "panic(v)":
+		return ".panicV"
+	case "cancel(context.DeadlineExceeded)":
+		return ".cancelDeadline"
+	case "generate(source)":
+		return ".callUser \"generate\""
+	case "mCtx.mapper(item, writer)":
+		return ".callUser \"mapper\""
+	case "reducer(collector, writer, cancel)":
+		return ".callUser \"reducer\""
+	}
+	return ""
+}
+
+func (s *source) c10Effects(list []ast.Stmt) []string {
+	var out []string
+	other := func(n ast.Node) { out = append(out, ".other "+leanStr(s.src(n))) }
+	for _, st := range list {
+		switch x := st.(type) {
+		case *ast.ExprStmt:
+			if u, ok := x.X.(*ast.UnaryExpr); ok && u.Op == token.ARROW && s.src(u.X) == "pool" {
+				out = append(out, ".poolRelease")
+				continue
+			}
+			if c, ok := x.X.(*ast.CallExpr); ok {
+				if e := c10EffOfCall(s.src(c)); e != "" {
+					out = append(out, e)
+					continue
+				}
+				// closeOnce.Do(func(){…}) / once.Do(func(){…}): the effects of the literal
+				if (s.src(c.Fun) == "closeOnce.Do") && len(c.Args) == 1 {
+					if l, ok := c.Args[0].(*ast.FuncLit); ok {
+						out = append(out, s.c10Effects(l.Body.List)...)
+						continue
+					}
+				}
+			}
+			other(st)
+		case *ast.IfStmt:
+			if x.Init != nil && s.src(x.Init) == "r := recover()" && s.src(x.Cond) == "r != nil" && x.Else == nil {
+				out = append(out, ".recoverBegin")
+				out = append(out, s.c10Effects(x.Body.List)...)
+				out = append(out, ".recoverEnd")
+				continue
+			}
+			if x.Init == nil && s.src(x.Cond) == "err != nil" && x.Else != nil {
+				if eb, ok := x.Else.(*ast.BlockStmt); ok && len(x.Body.List) == 1 && len(eb.List) == 1 &&
+					strings.HasPrefix(s.src(x.Body.List[0]), "retErr.Set(") && strings.HasPrefix(s.src(eb.List[0]), "retErr.Set(") {
+					out = append(out, ".retErrSet")
+					continue
+				}
+			}
+			other(st)
+		case *ast.RangeStmt:
+			if s.src(x.X) == "output" && len(x.Body.List) == 1 && strings.HasPrefix(s.src(x.Body.List[0]), "panic(") {
+				out = append(out, ".rangeOutputPanic")
+				continue
+			}
+			other(st)
+		case *ast.AssignStmt:
+			if s.src(x) == "err = context.DeadlineExceeded" {
+				out = append(out, ".errDeadline")
+				continue
+			}
+			other(st)
+		default:
+			other(st)
+		}
+	}
+	return out
+}
+
+func leanStr(x string) string {
+	x = strings.ReplaceAll(x, "\\", "\\\\")
+	x = strings.ReplaceAll(x, "\"", "\\\"")
+	x = strings.ReplaceAll(x, "\n", " ")
+	x = strings.ReplaceAll(x, "\t", "")
+	return "\"" + x + "\""
+}
+
+func (e *emitter) c10EffDef(name, doc string, get func() []ast.Stmt, s *source) {
+	e.c10Def(name, doc, "", "List Eff", func() string {
+		return "[" + strings.Join(s.c10Effects(get()), ", ") + "]"
+	})
+}
+
+// c10DeferLit: the body of the first `defer func(){…}()` directly in the statement list.
+func c10DeferLit(list []ast.Stmt) []ast.Stmt {
+	for _, st := range list {
+		if d, ok := st.(*ast.DeferStmt); ok {
+			if l, ok := d.Call.Fun.(*ast.FuncLit); ok {
+				return l.Body.List
+			}
+		}
+	}
+	c10Failf("no deferred function literal")
+	return nil
+}
+
+// c10GoLits: the bodies of the `go func(){…}()` statements found anywhere in the node, in source order.
+func c10GoLits(n ast.Node) [][]ast.Stmt {
+	var out [][]ast.Stmt
+	ast.Inspect(n, func(x ast.Node) bool {
+		if g, ok := x.(*ast.GoStmt); ok {
+			if l, ok := g.Call.Fun.(*ast.FuncLit); ok {
+				out = append(out, l.Body.List)
+			}
+		}
+		return true
+	})
+	return out
+}
+
+func (e *emitter) c10EffectLists(s *source) {
+	const f = "core/mr/mapreduce.go"
+	e.printf("%s", c10EffDecl)
+	mr := func() *ast.FuncDecl { return c10Func(s, f, "mapReduceWithPanicChan") }
+	litArgOf := func(fd *ast.FuncDecl, callee string) *ast.FuncLit {
+		var lit *ast.FuncLit
+		ast.Inspect(fd.Body, func(n ast.Node) bool {
+			if c, ok := n.(*ast.CallExpr); ok && s.src(c.Fun) == callee && len(c.Args) == 1 && lit == nil {
+				lit, _ = c.Args[0].(*ast.FuncLit)
+			}
+			return true
+		})
+		if lit == nil {
+			c10Failf("%s(func…) not found", callee)
+		}
+		return lit
+	}
+	e.c10EffDef("cancelEffects", "`cancel` (the function handed to `once`): record the error, THEN drain the source, THEN finish", func() []ast.Stmt {
+		return litArgOf(mr(), "once").Body.List
+	}, s)
+	e.c10EffDef("finishEffects", "`finish` (under closeOnce): close(done), then close(output)", func() []ast.Stmt {
+		var fin *ast.FuncLit
+		for _, st := range mr().Body.List {
+			if a, ok := st.(*ast.AssignStmt); ok && len(a.Lhs) == 1 && s.src(a.Lhs[0]) == "finish" {
+				fin, _ = a.Rhs[0].(*ast.FuncLit)
+			}
+		}
+		if fin == nil {
+			c10Failf("finish := func(){…} not found")
+		}
+		return fin.Body.List
+	}, s)
+	e.c10EffDef("callerDeferEffects", "the caller's deferred function: wait for the reducer goroutine (output closed), then re-raise a captured panic", func() []ast.Stmt {
+		return c10DeferLit(mr().Body.List)
+	}, s)
+	e.c10EffDef("reducerGoEffects", "the reducer goroutine: [deferred: drain collector, hand over a panic, finish] after the user reducer", func() []ast.Stmt {
+		gl := c10GoLits(mr().Body)
+		if len(gl) != 1 {
+			c10Failf("one go func(){…}() expected in mapReduceWithPanicChan")
+		}
+		body := gl[0]
+		var rest []ast.Stmt
+		for _, st := range body {
+			if _, ok := st.(*ast.DeferStmt); !ok {
+				rest = append(rest, st)
+			}
+		}
+		return append(rest, c10DeferLit(body)...)
+	}, s)
+	sel := func(comm string) []ast.Stmt {
+		for _, st := range mr().Body.List {
+			if x, ok := st.(*ast.SelectStmt); ok {
+				for _, cl := range x.Body.List {
+					cc := cl.(*ast.CommClause)
+					if cc.Comm != nil && s.src(cc.Comm) == comm {
+						return cc.Body
+					}
+				}
+			}
+		}
+		c10Failf("select case %s not found", comm)
+		return nil
+	}
+	e.c10EffDef("callerPanicCaseEffects", "the caller's panic case: drain output (so that the deferred range does not panic), then re-raise", func() []ast.Stmt {
+		return sel("v := <-panicChan.channel")
+	}, s)
+	e.c10EffDef("callerCtxCaseEffects", "the caller's context case: cancel(DeadlineExceeded), then err = DeadlineExceeded", func() []ast.Stmt {
+		return sel("<-options.ctx.Done()")
+	}, s)
+	em := func() *ast.FuncDecl { return c10Func(s, f, "executeMappers") }
+	e.c10EffDef("dispatcherDeferEffects", "executeMappers' deferred function: wait for the workers, close the collector, drain the source", func() []ast.Stmt {
+		return c10DeferLit(em().Body.List)
+	}, s)
+	e.c10EffDef("workerGoEffects", "one worker goroutine: the mapper, then [deferred: count + hand over a panic, wg.Done, release the pool slot]", func() []ast.Stmt {
+		gl := c10GoLits(em().Body)
+		if len(gl) != 1 {
+			c10Failf("one go func(){…}() expected in executeMappers")
+		}
+		var rest []ast.Stmt
+		for _, st := range gl[0] {
+			if _, ok := st.(*ast.DeferStmt); !ok {
+				rest = append(rest, st)
+			}
+		}
+		return append(rest, c10DeferLit(gl[0])...)
+	}, s)
+	e.c10EffDef("generatorGoEffects", "the generator goroutine: generate, then [deferred: hand over a panic, close the source]", func() []ast.Stmt {
+		gl := c10GoLits(c10Func(s, f, "buildSource").Body)
+		if len(gl) != 1 {
+			c10Failf("one go func(){…}() expected in buildSource")
+		}
+		var rest []ast.Stmt
+		for _, st := range gl[0] {
+			if _, ok := st.(*ast.DeferStmt); !ok {
+				rest = append(rest, st)
+			}
+		}
+		return append(rest, c10DeferLit(gl[0])...)
+	}, s)
+}
+
 func c10Func0(s *source, rel, name string) ast.Node {
 	fd := s.findFunc(rel, name)
 	if fd == nil {
@@ -639,5 +907,6 @@ func init() {
 		e.c10CallArgs(s, f, "executeMappers", "mCtx.mapper", "dispatcherMapperArgs")
 		e.c10CallArgs(s, f, "executeMappers", "wg.Add", "dispatcherWgAddArgs")
 		e.c10Semantic(s)
+		e.c10EffectLists(s)
 	})
 }
